@@ -16,8 +16,13 @@ const maxExpressionTokens = 4096
 // evaluated.
 const maxExpressionLength = 16 * maxExpressionTokens
 
+// maxSymbolTableTokens bounds the length of all resolved symbol values taken
+// together.
+const maxSymbolTableTokens = 256 * maxExpressionTokens
+
 func ExpandAndEvaluate(expr []token, symbols map[string][]token) (int, error) {
-	return expandAndEvaluate(expr, symbols, make(map[string][]token), nil)
+	budget := maxSymbolTableTokens
+	return expandAndEvaluate(expr, symbols, make(map[string][]token), nil, &budget)
 }
 
 // expandAndEvaluate evaluates expr. The values it resolves on the way are kept
@@ -29,7 +34,9 @@ func ExpandAndEvaluate(expr []token, symbols map[string][]token) (int, error) {
 // failed, if not nil, holds the symbols whose values could not be resolved by
 // earlier calls; the caller vouches that such a failure is final (the values
 // of symbols never change, so it is unless an undefined name was in the way).
-func expandAndEvaluate(expr []token, all map[string][]token, resolved map[string][]token, failed map[string]error) (int, error) {
+//
+// budget is what is left of maxSymbolTableTokens for the values in resolved.
+func expandAndEvaluate(expr []token, all map[string][]token, resolved map[string][]token, failed map[string]error, budget *int) (int, error) {
 	// only the symbols the expression can reach matter; resolving all of
 	// them for every FOR count would make the cost of a count grow with
 	// the number of unrelated definitions
@@ -90,7 +97,7 @@ func expandAndEvaluate(expr []token, all map[string][]token, resolved map[string
 		return 0, fmt.Errorf("symbol graph contains cycles: %s", key)
 	}
 
-	err := expandExpressionsInto(symbols, graph, resolved, failed)
+	err := expandExpressionsInto(symbols, graph, resolved, failed, budget)
 	if err != nil {
 		return 0, err
 	}
@@ -117,12 +124,15 @@ func expandAndEvaluate(expr []token, all map[string][]token, resolved map[string
 }
 
 func expandValue(key string, values, resolved map[string][]token, graph map[string][]string) ([]token, error) {
-	return expandValueRemembering(key, values, resolved, graph, nil)
+	return expandValueRemembering(key, values, resolved, graph, nil, nil)
 }
 
 // expandValueRemembering is expandValue; if failed is not nil, the symbols
 // whose values cannot be resolved are recorded in it
-func expandValueRemembering(key string, values, resolved map[string][]token, graph map[string][]string, failed map[string]error) (output []token, err error) {
+//
+// budget, if not nil, is the number of tokens the values resolved may still
+// take in all
+func expandValueRemembering(key string, values, resolved map[string][]token, graph map[string][]string, failed map[string]error, budget *int) (output []token, err error) {
 	if failed != nil {
 		defer func() {
 			if err != nil {
@@ -148,7 +158,7 @@ func expandValueRemembering(key string, values, resolved map[string][]token, gra
 		for _, dep := range deps {
 			_, resOk := resolved[dep]
 			if !resOk {
-				_, err := expandValueRemembering(dep, values, resolved, graph, failed)
+				_, err := expandValueRemembering(dep, values, resolved, graph, failed, budget)
 				if err != nil {
 					return nil, err
 				}
@@ -184,6 +194,13 @@ func expandValueRemembering(key string, values, resolved map[string][]token, gra
 		return nil, fmt.Errorf("symbol '%s' expands to more than %d tokens", key, maxExpressionTokens)
 	}
 
+	if budget != nil {
+		*budget -= len(output)
+		if *budget < 0 {
+			return nil, fmt.Errorf("the values of the symbols take more than %d tokens in all", maxSymbolTableTokens)
+		}
+	}
+
 	resolved[key] = output
 
 	return output, nil
@@ -191,7 +208,8 @@ func expandValueRemembering(key string, values, resolved map[string][]token, gra
 
 func expandExpressions(values map[string][]token, graph map[string][]string) (map[string][]token, error) {
 	resolved := make(map[string][]token)
-	err := expandExpressionsInto(values, graph, resolved, nil)
+	budget := maxSymbolTableTokens
+	err := expandExpressionsInto(values, graph, resolved, nil, &budget)
 	if err != nil {
 		return nil, err
 	}
@@ -200,14 +218,18 @@ func expandExpressions(values map[string][]token, graph map[string][]string) (ma
 
 // expandExpressionsInto resolves values and adds them to resolved, which may
 // already hold the resolved values of other symbols
-func expandExpressionsInto(values map[string][]token, graph map[string][]string, resolved map[string][]token, failed map[string]error) error {
+//
+// Every resolved value is a text of its own (substitution is textual), so many
+// symbols that name one long value take its length times their number: budget
+// is the number of tokens the values resolved here may still take in all.
+func expandExpressionsInto(values map[string][]token, graph map[string][]string, resolved map[string][]token, failed map[string]error, budget *int) error {
 	// in sorted order, so that the same input always reports the same error
 	for _, key := range sortedKeys(values) {
 		_, ok := resolved[key]
 		if ok {
 			continue
 		}
-		expanded, err := expandValueRemembering(key, values, resolved, graph, failed)
+		expanded, err := expandValueRemembering(key, values, resolved, graph, failed, budget)
 		if err != nil {
 			return err
 		}
